@@ -407,6 +407,12 @@ protected:
    */
   void fsync_file(bool force_fsync = false) noexcept
   {
+    if (!_file)
+    {
+      // the file is not open, e.g. a previous attempt to re-open it has failed
+      return;
+    }
+
     if (!force_fsync)
     {
       auto const now = std::chrono::steady_clock::now();
